@@ -12,19 +12,26 @@
 //!   API ::= sync | tokio | async   OP ::= flush | send   CTX ::= plain | mt | ct   RX ::= live | stalled | gone | hangup
 //!   TIMEOUT_MS may also be `max` (Duration::MAX) or `maxsecs` (u64::MAX seconds). RX = late: the receiver is started
 //!   30 ms after the call, so the call has to wait and then succeeds because the receiver drains the queue.
-//!   RX = refill (blocking_send, full queue): one take at 0.7·T, the queue refilled at once from inside an earlier
-//!   when_empty callback, no further take → output `err(999),within-budget` (returned by 1.4·T) | `…,over-budget`.
+//!   RX = refill (blocking_send and the async send, full queue): one take at 0.7·T, the queue refilled at once from
+//!   inside an earlier when_empty callback, no further take → output `err(999),within-budget` (returned by 1.4·T) |
+//!   `…,over-budget`. The async `tokio::send` measures its timeout with `std::time::Instant`, which a paused tokio
+//!   clock does not move, so this case runs in real time like the blocking ones (T = 500 ms).
 //!   API = async awaits `emit_batcher::tokio::{flush, send}` inside a current-thread runtime (CTX = ct); `flush` under
 //!   a paused clock (virtual time). RX = hangup (async flush only): the receiver takes the batch and the watcher,
 //!   never finishes, and is torn down after 10 ms — the oneshot hangs up and the flush resolves `true`.
 //!   PREFILL items are `send`-ed before the call; the call itself sends item 999 (OP = send).
-//! output: flush → true | false | panic ;  send → ok | err(ITEM) | err(noitem) | panic
+//! output: flush → true | false | panic ;  send → (ok | err(ITEM) | err(noitem))[,within-budget|,over-budget],t=T,b=B | panic
+//!   T / B = `queue_full_truncated` / `queue_full_blocked` sampled after the call: truncations come from the PREFILL
+//!   (plain sends) alone — a blocking send never discards anything, so it never moves that counter — and B is 1 iff
+//!   the call's first attempt found the queue full or closed (`b=?` against a live or late receiver thread with a
+//!   full queue, where that depends on thread scheduling).
 //! Only deterministic combinations are generated: a live receiver gets a timeout of 3 s (so the outcome does not
 //! depend on thread scheduling), a stalled or dropped one gets 0 / 30 ms.
 //!
 //! oracles: c08-panic (a blocking entry point panicked), c08-timeout (returned later than timeout + 1.5 s),
 //!          c07-blocking-true (flush returned true while items sent before it are still queued behind a stalled
-//!          receiver), c09-handback (send failed without handing the item back although the receiver exists)
+//!          receiver), c09-handback (send failed without handing the item back although the receiver exists),
+//!          c09-count (the blocking send moved `queue_full_truncated`, or `queue_full_blocked` by more than one)
 
 use emit_batcher::{BatchError, Receiver, Sender};
 use hcommon::{Rng, Sexp, Stream, Tier};
@@ -65,21 +72,26 @@ fn run_c09(line: &str) -> String {
 }
 fn run_c08(line: &str) -> String {
     keep_fails(&run_blocking(line), "c08", |o| {
-        if o == "panic" {
-            "panic".into()
-        } else if o.contains("-budget") {
+        if o == "panic" || o == "hang" {
             o.to_string()
+        } else if o.contains("-budget") {
+            // result and timing verdict; the counters belong to C09
+            o.split(',').take(2).collect::<Vec<_>>().join(",")
         } else {
             "returned".into()
         }
     })
 }
-fn gen_all(rng: &mut Rng, tier: Tier, n: usize) -> Vec<String> {
-    // the timing cases (remaining-time accounting of send_or_wait, T = 500 ms) always come first
-    let mut v: Vec<String> = [("sync", "plain"), ("tokio", "mt"), ("tokio", "ct")]
+/// the timing cases (remaining-time accounting of send_or_wait, T = 500 ms): the blocking variants and the async one
+fn refill_cases() -> Vec<String> {
+    [("sync", "plain"), ("tokio", "mt"), ("tokio", "ct"), ("async", "ct")]
         .iter()
         .map(|(api, ctx)| format!("(bl {} send {} refill 1 1 500)", api, ctx))
-        .collect();
+        .collect()
+}
+fn gen_all(rng: &mut Rng, tier: Tier, n: usize) -> Vec<String> {
+    // the timing cases always come first
+    let mut v: Vec<String> = refill_cases();
     v.extend(seq_cases());
     v.extend(gen_blocking(rng, tier, n, &["flush", "send"]));
     v
@@ -97,7 +109,9 @@ fn gen_flush(rng: &mut Rng, tier: Tier, n: usize) -> Vec<String> {
     v
 }
 fn gen_send(rng: &mut Rng, tier: Tier, n: usize) -> Vec<String> {
-    gen_blocking(rng, tier, n, &["send"])
+    let mut v = refill_cases();
+    v.extend(gen_blocking(rng, tier, n, &["send"]));
+    v
 }
 
 const SLACK: Duration = Duration::from_millis(1500);
@@ -228,6 +242,76 @@ fn call(api: Api, op: OpK, sender: &Sender<Vec<u64>>, timeout: Duration) -> Out 
         (Api::Tokio, OpK::Send) => send_out(emit_batcher::tokio::blocking_send(sender, 999, timeout)),
         (Api::Async, _) => unreachable!(),
     }
+}
+
+/// (`queue_full_truncated`, `queue_full_blocked`)
+fn counters(sender: &Sender<Vec<u64>>) -> (usize, usize) {
+    use emit::metric::Source;
+    struct S(std::cell::Cell<(usize, usize)>);
+    impl emit::metric::sampler::Sampler for &S {
+        fn metric<P: emit::Props>(&self, metric: emit::metric::Metric<P>) {
+            let v = metric.value().by_ref().cast::<usize>().unwrap_or(usize::MAX);
+            let (t, b) = self.0.get();
+            match metric.name().to_string().as_str() {
+                "queue_full_truncated" => self.0.set((v, b)),
+                "queue_full_blocked" => self.0.set((t, v)),
+                _ => {}
+            }
+        }
+    }
+    let s = S(std::cell::Cell::new((usize::MAX, usize::MAX)));
+    sender.metric_source().sample_metrics(&s);
+    s.0.get()
+}
+
+/// `,t=T,b=B` for a send (nothing for a flush or a panic) and the c09-count oracle: a blocking send never moves the
+/// truncation counter, and moves the blocked counter by at most one.
+fn counters_suffix(c: &Case, out: &Out, before: (usize, usize), after: (usize, usize), fails: &mut Vec<&'static str>) -> String {
+    if c.op != OpK::Send || *out == Out::Panic {
+        return String::new();
+    }
+    if after.0 != before.0 || !(after.1 == before.1 || after.1 == before.1 + 1) {
+        fails.push("c09-count");
+    }
+    // against a receiver THREAD (live, or started 30 ms after the call) with a full queue, whether the first attempt
+    // finds the queue still full depends on thread scheduling: the counter is checked by the oracle only
+    if (c.rx == Rx::Live || c.rx == Rx::Late) && c.prefill >= c.cap {
+        format!(",t={},b=?", after.0)
+    } else {
+        format!(",t={},b={}", after.0, after.1)
+    }
+}
+
+/// RX = refill: a `when_empty` callback registered FIRST (so it runs before the blocked sender's own waker: the
+/// freed slot is gone at once) and a hand-polled receiver that performs exactly one take at 0.7·T and then parks
+/// until `stop` is set.
+fn setup_refill(sender: &Arc<Sender<Vec<u64>>>, r: Receiver<Vec<u64>>, timeout: Duration) -> Arc<std::sync::atomic::AtomicBool> {
+    let stop = Arc::new(std::sync::atomic::AtomicBool::new(false));
+    let s2 = sender.clone();
+    sender.when_empty(move || {
+        let _ = s2.try_send(777);
+    });
+    let at = timeout.mul_f64(0.7);
+    let stop2 = stop.clone();
+    std::thread::spawn(move || {
+        std::thread::sleep(at);
+        let mut fut = Box::pin(r.exec(
+            |_d| std::future::pending::<()>(),
+            |_b: Vec<u64>| std::future::pending::<Result<(), BatchError<Vec<u64>>>>(),
+        ));
+        let mut cx = std::task::Context::from_waker(std::task::Waker::noop());
+        let _ = std::future::Future::poll(fut.as_mut(), &mut cx);
+        while !stop2.load(std::sync::atomic::Ordering::SeqCst) {
+            std::thread::sleep(Duration::from_millis(5));
+        }
+        drop(fut);
+    });
+    stop
+}
+
+/// the timing verdict needs a budget that dwarfs scheduling noise: 200 ms ≤ T ≤ 5 s
+fn refill_ok(c: &Case) -> bool {
+    c.op == OpK::Send && c.prefill >= c.cap && c.timeout >= Duration::from_millis(200) && c.timeout <= Duration::from_secs(5)
 }
 
 fn send_out(r: Result<(), BatchError<u64>>) -> Out {
@@ -391,25 +475,33 @@ fn run_seq(line: &str) -> Option<String> {
     })
 }
 
+/// Every case runs under a time limit (guard.rs): the longest legitimate case takes ≈ 1 s (the timing cases) — a
+/// live receiver gets a 3 s timeout but is served at once — so a call that has not come back after 8 s (2 s once a
+/// hang has been seen in this process) is wedged: the state lock is held for good (e.g. by a receiver that invoked a
+/// re-entrant watcher under it). Output `hang`, every property's hang oracle.
 fn run_blocking(line: &str) -> String {
+    let line = line.to_string();
+    match super::guard::run_limited(move || run_blocking_inner(&line), Duration::from_secs(8), Duration::from_secs(2)) {
+        super::guard::Verdict::Done(s) => s,
+        super::guard::Verdict::Panicked => "panic".into(),
+        super::guard::Verdict::Hung => "hang\tFAIL:c07-hang+c08-hang+c09-hang".into(),
+    }
+}
+
+fn run_blocking_inner(line: &str) -> String {
     if line.starts_with("(blseq") {
         return run_seq(line).unwrap_or_else(|| "bad-case".into());
     }
     let Some(c) = parse(line) else {
         return "bad-case".into();
     };
+    if c.rx == Rx::Refill && !refill_ok(&c) {
+        return "bad-case".into();
+    }
     if c.api == Api::Async {
-        if c.rx == Rx::Refill {
-            return "bad-case".into();
-        }
         return run_async(&c);
     }
-    // the timing verdict needs a budget that dwarfs scheduling noise: 200 ms ≤ T ≤ 5 s
-    let refill_ok = c.op == OpK::Send
-        && c.prefill >= c.cap
-        && c.timeout >= Duration::from_millis(200)
-        && c.timeout <= Duration::from_secs(5);
-    if c.rx == Rx::Hangup || (c.rx == Rx::Refill && !refill_ok) {
+    if c.rx == Rx::Hangup {
         return "bad-case".into();
     }
     let (sender, receiver): (Sender<Vec<u64>>, Receiver<Vec<u64>>) = emit_batcher::bounded(c.cap);
@@ -445,31 +537,12 @@ fn run_blocking(line: &str) -> String {
             });
         }
     }
-    let stop_refill = Arc::new(std::sync::atomic::AtomicBool::new(false));
-    if c.rx == Rx::Refill {
-        // registered first, so it runs before the blocked sender's own trigger: the freed slot is gone at once
-        let s2 = sender.clone();
-        sender.when_empty(move || {
-            let _ = s2.try_send(777);
-        });
-        // a hand-polled receiver that performs exactly one take at 0.7·T and then parks
-        let r = receiver.take().unwrap();
-        let at = timeout.mul_f64(0.7);
-        let stop = stop_refill.clone();
-        std::thread::spawn(move || {
-            std::thread::sleep(at);
-            let mut fut = Box::pin(r.exec(
-                |_d| std::future::pending::<()>(),
-                |_b: Vec<u64>| std::future::pending::<Result<(), BatchError<Vec<u64>>>>(),
-            ));
-            let mut cx = std::task::Context::from_waker(std::task::Waker::noop());
-            let _ = std::future::Future::poll(fut.as_mut(), &mut cx);
-            while !stop.load(std::sync::atomic::Ordering::SeqCst) {
-                std::thread::sleep(Duration::from_millis(5));
-            }
-            drop(fut);
-        });
-    }
+    let stop_refill = if c.rx == Rx::Refill {
+        setup_refill(&sender, receiver.take().unwrap(), timeout)
+    } else {
+        Arc::new(std::sync::atomic::AtomicBool::new(false))
+    };
+    let before = counters(&sender);
     let started = Instant::now();
     let out = {
         let sender = sender.clone();
@@ -513,15 +586,18 @@ fn run_blocking(line: &str) -> String {
         }
     };
     let wall = started.elapsed();
+    let after = counters(&sender);
     stop_refill.store(true, std::sync::atomic::Ordering::SeqCst);
     drop(receiver);
     let mut fails: Vec<&str> = Vec::new();
+    let suffix = counters_suffix(&c, &out, before, after, &mut fails);
     if c.rx == Rx::Refill {
         // HEAD returns at ≈ T; a send_or_wait that grants every wait round the full timeout at ≈ 1.7·T.
         // The bound 1.4·T sits in the middle; the output carries the verdict only, never the measured time.
         let within = wall <= timeout.mul_f64(1.4);
         if !within {
             fails.push("c08-timeout");
+            fails.push("c09-timeout"); // "hand it back to the caller when the timeout expires"
         }
         if out == Out::Panic {
             fails.push("c08-panic");
@@ -533,7 +609,7 @@ fn run_blocking(line: &str) -> String {
             Out::Panic => "panic".into(),
             Out::Flush(b) => format!("{}", b),
         };
-        let mut s = format!("{},{}", o, if within { "within-budget" } else { "over-budget" });
+        let mut s = format!("{},{}{}", o, if within { "within-budget" } else { "over-budget" }, suffix);
         if !fails.is_empty() {
             s.push_str("\tFAIL:");
             s.push_str(&fails.join("+"));
@@ -560,18 +636,7 @@ fn run_blocking(line: &str) -> String {
             fails.push("c09-handback");
         }
     }
-    let mut s = match out {
-        Out::Flush(b) => format!("{}", b),
-        Out::SendOk => "ok".into(),
-        Out::SendErr(Some(x)) => format!("err({})", x),
-        Out::SendErr(None) => "err(noitem)".into(),
-        Out::Panic => "panic".into(),
-    };
-    if !fails.is_empty() {
-        s.push_str("\tFAIL:");
-        s.push_str(&fails.join("+"));
-    }
-    s
+    render(out, &suffix, &fails)
 }
 
 /// The async entry points under a paused tokio clock: everything runs on one thread in virtual time, so the
@@ -589,6 +654,7 @@ fn run_async(c: &Case) -> String {
     let res = hcommon::catch(|| {
         rt.block_on(async move {
             let (sender, receiver): (Sender<Vec<u64>>, Receiver<Vec<u64>>) = emit_batcher::bounded(cap);
+            let sender = Arc::new(sender);
             let mut receiver = Some(receiver);
             if rxk == Rx::Gone {
                 drop(receiver.take());
@@ -621,20 +687,44 @@ fn run_async(c: &Case) -> String {
                 }
                 _ => {}
             }
+            let stop_refill = if rxk == Rx::Refill {
+                Some(setup_refill(&sender, receiver.take().unwrap(), timeout))
+            } else {
+                None
+            };
+            let before = counters(&sender);
             let t0 = tokio::time::Instant::now();
             let out = match op {
                 OpK::Flush => Out::Flush(emit_batcher::tokio::flush(&sender, timeout).await),
                 OpK::Send => send_out(emit_batcher::tokio::send(&sender, 999, timeout).await),
             };
             let virt = t0.elapsed();
+            let after = counters(&sender);
+            if let Some(stop) = stop_refill {
+                stop.store(true, std::sync::atomic::Ordering::SeqCst);
+            }
             drop(receiver);
-            (out, virt)
+            (out, virt, before, after)
         })
     });
-    let (out, virt) = res.unwrap_or((Out::Panic, Duration::ZERO));
+    let (out, virt, before, after) = res.unwrap_or((Out::Panic, Duration::ZERO, (0, 0), (0, 0)));
     let mut fails: Vec<&str> = Vec::new();
+    let suffix = counters_suffix(c, &out, before, after, &mut fails);
     if out == Out::Panic {
         fails.push("c08-panic");
+    }
+    if c.rx == Rx::Refill {
+        // HEAD hands the item back at ≈ T; a waiter that is granted the FULL timeout on every round at ≈ 1.7·T
+        let within = virt <= timeout.mul_f64(1.4);
+        if !within {
+            fails.push("c08-timeout");
+            fails.push("c09-timeout");
+        }
+        if out != Out::SendErr(Some(999)) {
+            fails.push("c09-handback");
+        }
+        let budget = if within { ",within-budget" } else { ",over-budget" };
+        return render(out, &format!("{}{}", budget, suffix), &fails);
     }
     if virt > timeout.saturating_add(if paused { Duration::from_millis(2) } else { SLACK })
         || (c.rx == Rx::Late && virt > LATE + SLACK)
@@ -655,10 +745,10 @@ fn run_async(c: &Case) -> String {
             fails.push("c09-handback");
         }
     }
-    render(out, &fails)
+    render(out, &suffix, &fails)
 }
 
-fn render(out: Out, fails: &[&str]) -> String {
+fn render(out: Out, suffix: &str, fails: &[&str]) -> String {
     let mut s = match out {
         Out::Flush(b) => format!("{}", b),
         Out::SendOk => "ok".into(),
@@ -666,6 +756,7 @@ fn render(out: Out, fails: &[&str]) -> String {
         Out::SendErr(None) => "err(noitem)".into(),
         Out::Panic => "panic".into(),
     };
+    s.push_str(suffix);
     if !fails.is_empty() {
         s.push_str("\tFAIL:");
         s.push_str(&fails.join("+"));
